@@ -104,7 +104,12 @@ def evalOp : List String → Option String
   | "steps" :: ts => do
     let (a, ts) ← pArr ts
     let (h, _) ← pNat ts
-    pure (withArr a fun a => listToStr (a.stepsUpTo h))
+    -- `Propagated::steps_iter` yields 1 before it touches the inner iterator: with horizon 0
+    -- nothing of a malformed (all-zero) inner curve is evaluated
+    pure (match a with
+      | some (.prop j x) => if (Arr.prop j x).WF then listToStr ((Arr.prop j x).stepsUpTo h)
+                            else if h = 0 ∧ arrWF0 x then "[]" else "panic"
+      | a => withArr a fun a => listToStr (a.stepsUpTo h))
   | "bsteps" :: ts => do
     let (a, ts) ← pArr ts
     let (h, _) ← pNat ts
@@ -124,7 +129,7 @@ def evalOp : List String → Option String
   | "dmi" :: ts => do
     let (k, ts) ← pNat ts
     let (a, _) ← pArr ts
-    pure (withArr a fun a => pairsToStr (a.dminIterTake k))
+    pure (withArr a fun a => pairsToStr (a.dminIterTakeIter k))
   | "coj" :: ts => do
     let (c, ts) ← pCost ts
     let (n, _) ← pNat ts
